@@ -1078,7 +1078,11 @@ def trlog(T, check=True, twist=False):
                 S = trlog(R, check=False)  # recurse
                 w = base.vex(S)
                 theta = base.norm(w)
-                Ginv = np.eye(3) - S / 2 + (1 / theta - 1 / math.tan(theta / 2) / 2) / theta * S @ S
+                if theta < 1e-6:
+                    # limit of the coefficient below as theta -> 0
+                    Ginv = np.eye(3) - S / 2 + S @ S / 12
+                else:
+                    Ginv = np.eye(3) - S / 2 + (1 / theta - 1 / math.tan(theta / 2) / 2) / theta * S @ S
                 v = Ginv @ t
                 if twist:
                     return np.r_[v, w]
@@ -1110,8 +1114,16 @@ def trlog(T, check=True, twist=False):
                 return base.skew(w * theta)
         else:
             # general case
-            theta = math.acos((np.trace(R) - 1) / 2)
-            skw = (R - R.T) / 2 / math.sin(theta)
+            # (R - R')/2 = sin(theta) * skew(axis) and (trace(R) - 1)/2 = cos(theta); atan2 of the
+            # two is accurate near theta = 0 and theta = pi where acos(trace) is not
+            skw = (R - R.T) / 2
+            st = base.norm(base.vex(skw))
+            if st == 0:
+                skw = np.zeros((3, 3))
+                theta = 0
+            else:
+                theta = math.atan2(st, (np.trace(R) - 1) / 2)
+                skw = skw / st
             if twist:
                 return base.vex(skw * theta)
             else:
